@@ -143,8 +143,13 @@ class EditableModule(object):
             self._unique_params_maps = {}
             self._number_of_params = {}
 
-        if methodname in self._unique_params_idxs:
-            return self._unique_params_idxs[methodname]
+        # names that shared a tensor when the method was first looked at do not
+        # necessarily share it now (and vice versa), so the cached map is only used
+        # when the tensors currently held are not given or while a temporary
+        # substitution is active (the substituted tensors do not define the map)
+        if allparams is None or getattr(self, "_unique_params_frozen", 0) > 0:
+            if methodname in self._unique_params_idxs:
+                return self._unique_params_idxs[methodname]
         if allparams is None:
             allparams = self.getparams(methodname)
 
